@@ -119,3 +119,8 @@ CHECKS["C13"] = {"pkg": "wallet", "shards": 12,
     "technique": "property-based testing (rapid) of wallet.SignTransaction with a success predictor and a before/after comparison oracle; signatures judged by the code verifier and the textbook curve",
     "text": "Generated wallets of every type, transactions with 1-6 inputs of mixed ownership and partial pre-signatures, and index selections (none, subset, out of range, negative, duplicate, already signed, too many): success must be exactly what the documented contract predicts; on success exactly the addressed inputs gain a signature that verifies against the spent output's address and nothing else changes; on failure an error and no panic; the caller's transaction is never modified.",
     "note": "pre-signatures are made with the deterministic reference signer; watch-only and encrypted wallets are negative cases"}
+
+CHECKS["C19"] = {"pkg": "wallet", "shards": 12,
+    "technique": "model-based stateful property testing (rapid state machine) of wallet.Service with memory / file / fresh-service comparison after every step and an unchanged-on-failure oracle",
+    "text": "Generated sequences of create (4 wallet types, temporary, encrypted, duplicate seeds, bad parameters), new addresses, scan, label, encrypt, decrypt, recover, unload and secret updates with right, wrong and missing passwords and unknown ids; after every step each loaded non-temporary wallet must serialise identically in memory, in its file and in a freshly started service, temporary wallets must have no file, no two loaded wallets may share a fingerprint, and a failed operation must leave directory and memory byte-identical.",
+    "note": "file-system faults are the subject of C20, not injected here; unloaded wallets keep their file by design and are tracked by the model"}
